@@ -134,6 +134,13 @@ Theorem C20_with_key_in_refuted : exists keys E,
 Proof. exact key_in_refuted. Qed.
 Print Assumptions C20_with_key_in_refuted.
 
+(* [R] an items string that is one whole <% %> expression (it is matched as such by the expression
+   alternative) but uses the word ` in ` inside is cut in the middle of the expression *)
+Theorem C20_with_expr_in_refuted : exists E,
+  m_value E = Some (E, "") /\ parse_items E <> (strip E, None).
+Proof. exact expr_in_refuted. Qed.
+Print Assumptions C20_with_expr_in_refuted.
+
 Example C20_with_nonvacuous :
   forallb key_ok ["k1"; "k2"; "inner"] = true /\
   parse_items "k1, k2, inner in <% ctx().xs.where($ in ctx().ys) %> " =
